@@ -783,7 +783,7 @@ var c13silent = Register(&Prop[SilentCase]{ID: "C13", Name: "silent-host-convers
 var c13hostmap = Register(&Prop[HostMapCase]{ID: "C13", Name: "host-map-order", Check: checkHostMap})
 
 func TestC13(t *testing.T) {
-	R.Rule = "histories of 3-25 operations over a pool of <= 4 expressions (results with multi-entry maps, objects, set operations, string(x), print), three engine instances (VM, closure, VM) and deliberately reused environment objects (one raw *types.Env, two raw *val.Env with different contents, host structs and maps): compile(expr, type object) on engine i; invoke(callable, value object); one-shot Eval; Debug; render an earlier result 16 times; one compile in three wraps the expression in a template calling the identity host function nest, and while nest runs inside an invocation another callable - possibly the very one being evaluated - is invoked to completion (an invocation nested in an evaluation, depth <= 2); oracle after every step: outcome = the reference evaluator on (expression, environment contents) alone, captured standard output = exactly the print lines, host values deep-equal to an identically built twin, every binding of the raw value environments reads as before, renderings never vary, an environment object used once is accepted again; plus eight precedence- / associativity-sensitive sources evaluated through Eval, a fresh engine and an engine created earlier, before and after ANOTHER engine registers an operator with the name and position of a built-in but another binding (six redefinitions, registered before or after that engine's first compilation): always the value the built-in table gives; plus host data with extreme numbers (integers float64 cannot hold exactly, the extremes of every width, float32) evaluated through Eval, Debug and Callables of both back ends with standard output captured: nothing is written; plus Go maps as host data (time keys within one second and in two zones, neighbouring floats, strings, large integers, interface{} and pointer keys that do / do not denote the same number; 2-6 entries) evaluated 24 times each through string / len / == / get / isset / subscript with identical outcomes; plus repeated fresh evaluation of single programs (6 x 2 back ends) with identical result text and output; plus one source text (13 templates over overloaded / polymorphic built-ins) compiled 2-5 times on ONE engine against environments that give its variables different types, each step compared with a fresh engine, and the same text parsed once (Expr.Parse) with that one tree compiled at every step (Expr.CompileExpr), closures compiled earlier re-invoked after every later compilation; non-trivial = an environment object reused after another operation and a result with a multi-entry map or >= 2 results"
+	R.Rule = "histories of 3-25 operations over a pool of <= 4 expressions (results with multi-entry maps, objects, set operations, string(x), print), three engine instances (VM, closure, VM) and deliberately reused environment objects (one raw *types.Env, two raw *val.Env with different contents, host structs and maps): compile(expr, type object) on engine i; invoke(callable, value object); one-shot Eval; Debug; render an earlier result 16 times; one compile in three wraps the expression in a template calling the identity host function nest, and while nest runs inside an invocation another callable - possibly the very one being evaluated - is invoked to completion (an invocation nested in an evaluation, depth <= 2); oracle after every step: outcome = the reference evaluator on (expression, environment contents) alone, captured standard output = exactly the print lines, host values deep-equal to an identically built twin, every binding of the raw value environments reads as before, renderings never vary, an environment object used once is accepted again; plus eight precedence- / associativity-sensitive sources evaluated through Eval, a fresh engine and an engine created earlier, before and after ANOTHER engine registers an operator with the name and position of a built-in but another binding (six redefinitions, registered before or after that engine's first compilation): always the value the built-in table gives; plus host data with extreme numbers (integers float64 cannot hold exactly, the extremes of every width, float32) evaluated through Eval, Debug and Callables of both back ends with standard output captured: nothing is written; plus Go maps as host data (time keys within one second and in two zones, neighbouring floats, strings, large integers, interface{} and pointer keys that do / do not denote the same number; 2-6 entries) evaluated 24 times each through string / len / == / get / isset / subscript with identical outcomes; plus repeated fresh evaluation of single programs (6 x 2 back ends) with identical result text and output; plus one source text (13 templates over overloaded / polymorphic built-ins) compiled 2-5 times on ONE engine against environments that give its variables different types, each step compared with a fresh engine, and the same text parsed once (Expr.Parse) with that one tree compiled at every step (Expr.CompileExpr), closures compiled earlier re-invoked after every later compilation; plus six templates over a host-registered LAZY function (unless(c, a, b), forcing only the selected operand) whose deferred operands read the environment, compiled once per back end and invoked 2-6 times with different drawn environments, every result compared with the template's meaning over that invocation's environment alone; non-trivial = an environment object reused after another operation and a result with a multi-entry map or >= 2 results"
 	R.Assume = []string{"ref.Eval and the characterised rendering of print"}
 	reportKnown(t, "C13")
 	runRegress(t, "C13")
@@ -815,6 +815,7 @@ func TestC13(t *testing.T) {
 	c13.Run(t, budget(1500, 96000))
 	c13repeat.Run(t, budget(1500, 96000))
 	c13recompile.Run(t, budget(1500, 96000))
+	c13lazy.Run(t, budget(1500, 96000))
 }
 
 var _ = types.Num
